@@ -43,6 +43,18 @@ claimed.update({
    technique="explicit enumeration of node pairs by reflection-driven deviations against count and reconstruction models",
    design="5/C14"),
 })
+claimed.update({
+ "C11": dict(
+   text="Bounded exhaustive check that every read-only or value-returning public operation of the model types (table checked for completeness against the method sets by reflection; ~300 operation instances per operand document: compare, hash, diff, copy, look up, traverse, unite, intersect, serialize through all 8 formats) leaves every operand unchanged: order-sensitive field-by-field snapshots before = after, on fully populated documents whose lists are stored unsorted, sparse and empty ones, with every second-operand variant.",
+   note="Trusted: gen.Snap. The data-race clause is decided by the race-instrumented pair exploration (group schedules) when that variant is built; see evidence.coverage.selftests.",
+   technique="explicit enumeration of operations x operands with before/after snapshots; race-instrumented serialized pair schedules",
+   design="5/C11"),
+ "C12": dict(
+   text="Bounded exhaustive check of value independence: for every message type with Copy (Node, Edge, Person, ExternalReference, NodeList) and for Union/Intersect over 5x5 operand lists built with spare slice capacity, every schema field path found by reflection (depth 3: list elements, map entries, appends, nested persons and references) is mutated on one side while the other side's snapshot must not change, in both directions; copies must equal their source; all call histories of length 2 (thorough 3) over {Copy, Union, Intersect} on shared operands re-snapshot every earlier result after every later call.",
+   note="Trusted: gen.Snap and the reflection-driven deviation generator; writes into shared spare capacity are observed through the histories.",
+   technique="explicit enumeration of field paths x derivations x sides with snapshots; exhaustive short call histories",
+   design="5/C12"),
+})
 pending = {}
 all_ids = ["C%02d" % i for i in range(1, 21)]
 checks = []
